@@ -55,11 +55,31 @@ var Locs = []string{
 	"global", "math.attr", "math.new", "sys.path.append", "sys.path.rebind", "sys.argv.inplace", "sys.argv.rebind",
 	"builtins.new", "builtins.len", "srcmod.val", "srcmod.list", "srcmod.dict", "class.attr", "func.default",
 	"type.int", "type.list", "type.exc", "os.environ", "string.attr", "time.attr", "sys.new", "print.capture", "nested.cfg",
+	"const.bytes", "exc.syntax",
 }
 
+// BadSources fail in the compiler proper (after parsing), each at its own line.
+var BadSources = []string{
+	"continue\n", "\nbreak\n", "\n\nreturn 3\n", "def f(a, a):\n    pass\n", "\nnonlocal q\n", "def g():\n    nonlocal zz\n",
+	"try:\n    pass\nfinally:\n    continue\n", "\n\n\nyield 1\n", "for i in range(3):\n    pass\nelse:\n    continue\n",
+}
+
+var badLines = []int{1, 2, 3, 1, 2, 2, 4, 4, 4}
+
 func writeStmt(loc string, v int) string {
-	val := fmt.Sprintf("\"w%d\"", v)
+	// every written value carries the context's tag CT (derived from the
+	// context's own sys.path entry): contexts that execute the SAME code object
+	// still write distinguishable values
+	val := fmt.Sprintf("(\"w%d\" + CT)", v)
 	switch loc {
+	case "exc.syntax":
+		// a SyntaxError kept by the program and inspected later: the instance
+		// (with the file name and line it carries) belongs to this compilation
+		return fmt.Sprintf("try:\n    compile(%q, \"f%d\" + CT + \".py\", \"exec\")\n    held = None\nexcept SyntaxError as _se:\n    held = _se", BadSources[v%len(BadSources)], v)
+	case "const.bytes":
+		// an in-place operator applied to a value that starts out as a constant of
+		// the (possibly shared) code object
+		return fmt.Sprintf("bb = b\"k%d\"\nbb += BT", v)
 	case "global":
 		return "gv = " + val
 	case "math.attr":
@@ -157,11 +177,20 @@ func readExpr(loc string) (prelude, expr string) {
 		return "import string", "string.digits"
 	case "time.attr":
 		return "import time", "time.zz_new"
+	case "const.bytes":
+		return "", "repr(bb)"
+	case "exc.syntax":
+		return "", "exc_loc(held)"
 	}
 	return "", "None"
 }
 
-const progPrelude = `from simlog import log, exc_name
+const progPrelude = `from simlog import log, exc_name, exc_loc
+held = None
+import sys
+CT = sys.path[0][-1:]
+BT = {"0": b"0", "1": b"1", "2": b"2", "3": b"3"}.get(CT, b"x")
+bb = b"init"
 gv = "init"
 class K:
     attr = "init"
